@@ -172,6 +172,21 @@ def plan(tier, seed):
                 for x in t:
                     x["depth"] = depth
                 tasks += t
+    # relative file names, one object bound by the constructor and one through the `filename` setter: however an object
+    # came to be bound to the file, and however the name is spelt, the objects share one buffered state
+    for c in (("BufferedJSONDict", "MemoryBufferedJSONDict") if tier == "quick" else
+              [x for fam in ("Buffered", "MemoryBuffered") for x in env.JSON_FAMILIES[fam]]):
+        kind_ = env.kind_of(c)
+        cfg = seq.Config(c, initial=(INIT[kind_], INIT[kind_]), objects=(0, 1), prefix=(("setfilename", 1, 0),),
+                         label="%s/2obj/relative-names+setter" % c, options={"track_sessions": True, "relative_names": True})
+        depth = (2 + 2 + 2) + 1
+        kw = dict(label="%s/ops2/sess1" % cfg.label, cfg=cfg, alphabet="alphabet", depth=depth,
+                  oracles={"result", "resource", "nowrite", "ctxerr"}, hooks="probe",
+                  extra={"maxops": 2, "rich": False, "depth": depth, "sessions": 1, "aba": False})
+        t = seqcheck.split(2, **kw)
+        for x in t:
+            x["depth"] = depth
+        tasks += t
     return tasks
 
 
